@@ -83,6 +83,13 @@ def run(tier):
             k = sorted(runs)[7]
             rep.sample({"mode": "free", "label": runs[k][0]["label"], "keys": runs[k][0]["keys"][:1]})
         os.remove(hf)
+    # batches far deeper than any per-message budget (63-300, thorough to 4097 entries in one call) on 1, 2, 4 shards:
+    # written, overwritten with shorter long values, read back through the batched and the generic path
+    hb = os.path.join(wd, "bigbatch.ndjson")
+    vlib.vh(["lin", "bigbatch", "--tier", tier, "--out", hb])
+    runs, _ = vlib.validate_runs(rep, "LinTrace", "LinTrace", hb, wd, "bigbatch", describe="not linearizable: {what}", strip=())
+    account(runs)
+    os.remove(hb)
     # the same through real connection handlers (duplex streams), pipelines of 1-4 commands
     nc = 20000 if thorough else 1500
     for i in range(0, nc, 5000):
@@ -106,7 +113,7 @@ def run(tier):
                               "sample of its behaviours and the free-running histories are whatever the tokio scheduler produced")
     rep.assumptions += ["tickets come from one SeqCst atomic counter taken immediately before the call and after the reply: the recorded interval contains the real one, so a rejected history is a real violation",
                         "an abandoned call (dropped future) may take effect at any later time or never",
-                        "register keys receive unique values; the counter key receives numbers only",
+                        "register keys receive unique values of 2-75 bytes; the counter key receives numbers only",
                         "multi-key batches are judged per key (not as one atomic step)",
                         "the schedules of the multi-thread runtime are not controlled: linearizability is shown for the explored schedules only"]
     return rep.finish()
